@@ -635,6 +635,107 @@ fn run_crash_indexed_flush(budget: &Budget) -> Result<(u64, Vec<(String, String)
 	Ok((n, found))
 }
 
+/// Many keys x several versions each, on the version-index back-end or the LSM back-end: enough
+/// entries for the index to grow several levels and to split leaves in the middle (every round
+/// inserts between the entries of the previous rounds). The complete history forwards and
+/// backwards, and get_at for a sample of keys at every timestamp, must match the list model right
+/// after the writes, after a reopen and after a compaction.
+pub fn large_history_case(index: bool, nkeys: usize, rounds: usize) -> Result<Option<(String, String)>, String> {
+	let mut opt = OptSet::base(if index { "versioned-index-large" } else { "versioned-lsm-large" }).versioned(0, index);
+	opt.memtable = 16 << 20;
+	let mut w = World::new(opt, &[])?;
+	let key = |i: usize| format!("k{i:05}").into_bytes();
+	let val = |r: usize, i: usize| format!("round{r}-key{i}").into_bytes();
+	let ts_of = |r: usize| 10 * (r as u64 + 1);
+	for r in 0..rounds {
+		w.clock.set(ts_of(r));
+		let ws: Vec<Write> = (0..nkeys).map(|i| Write::set(&key(i), &val(r, i)).at(ts_of(r))).collect();
+		for chunk in ws.chunks(100) {
+			w.commit(chunk, surrealkv::Durability::Eventual)?.map_err(|e| format!("commit: {e}"))?;
+		}
+		w.physical(Phys::FlushAll)?;
+	}
+	let mut expected: Vec<(Vec<u8>, Ver)> = vec![];
+	for i in 0..nkeys {
+		for r in (0..rounds).rev() {
+			expected.push((key(i), Ver { ts: ts_of(r), tomb: false, value: val(r, i) }));
+		}
+	}
+	let check = |w: &World, stage: &str| -> Result<Option<(String, String)>, String> {
+		let _g = w.rt.as_ref().unwrap().enter();
+		let txn = w.tree().begin_with_mode(Mode::ReadOnly).map_err(|e| format!("{e}"))?;
+		let describe = |got: &[(Vec<u8>, Ver)]| -> String {
+			let pos = got.iter().zip(expected.iter()).position(|(a, b)| a != b).unwrap_or(got.len().min(expected.len()));
+			format!("{} entries, expected {}; first difference at position {pos}: got {}, expected {}", got.len(), expected.len(), got.get(pos).map(|e| fmt_hist(std::slice::from_ref(e))).unwrap_or("<end>".into()), expected.get(pos).map(|e| fmt_hist(std::slice::from_ref(e))).unwrap_or("<end>".into()))
+		};
+		{
+			let mut it = txn.history(crate::world::LO, crate::world::HI).map_err(|e| format!("history: {e}"))?;
+			let mut got = vec![];
+			let mut ok = match it.seek_first() {
+				Ok(b) => b,
+				Err(e) => return Ok(Some(("large:history-error".into(), format!("{stage}: seek_first: {e}")))),
+			};
+			while ok && got.len() <= expected.len() {
+				match entry_of(&it) {
+					Ok(e) => got.push(e),
+					Err(e) => return Ok(Some(("large:history-error".into(), format!("{stage}: forward entry {}: {e}", got.len())))),
+				}
+				ok = match it.next() {
+					Ok(b) => b,
+					Err(e) => return Ok(Some(("large:history-error".into(), format!("{stage}: next after {} entries: {e}", got.len())))),
+				};
+			}
+			if got != expected {
+				return Ok(Some(("large:history-forward".into(), format!("{stage}: complete history forward: {}", describe(&got)))));
+			}
+			let mut got = vec![];
+			let mut ok = match it.seek_last() {
+				Ok(b) => b,
+				Err(e) => return Ok(Some(("large:history-error".into(), format!("{stage}: seek_last: {e}")))),
+			};
+			while ok && got.len() <= expected.len() {
+				match entry_of(&it) {
+					Ok(e) => got.push(e),
+					Err(e) => return Ok(Some(("large:history-error".into(), format!("{stage}: backward entry {}: {e}", got.len())))),
+				}
+				ok = match it.prev() {
+					Ok(b) => b,
+					Err(e) => return Ok(Some(("large:history-error".into(), format!("{stage}: prev after {} entries: {e}", got.len())))),
+				};
+			}
+			got.reverse();
+			if got != expected {
+				return Ok(Some(("large:history-backward".into(), format!("{stage}: complete history backward (reversed): {}", describe(&got)))));
+			}
+		}
+		for i in (0..nkeys).step_by(7).chain([nkeys - 1]) {
+			for r in 0..rounds {
+				for (t, exp) in [(ts_of(r), Some(val(r, i))), (ts_of(r) - 1, if r == 0 { None } else { Some(val(r - 1, i)) }), (ts_of(r) + 1, Some(val(r, i)))] {
+					match txn.get_at(&key(i), t) {
+						Ok(g) if g.as_deref() == exp.as_deref() => {}
+						Ok(g) => return Ok(Some(("large:get_at-wrong".into(), format!("{stage}: get_at({}, {t}) = {:?}, expected {:?}", String::from_utf8_lossy(&key(i)), g.map(|v| String::from_utf8_lossy(&v).to_string()), exp.map(|v| String::from_utf8_lossy(&v).to_string()))))),
+						Err(e) => return Ok(Some(("large:get_at-error".into(), format!("{stage}: get_at({}, {t}): {e}", String::from_utf8_lossy(&key(i)))))),
+					}
+				}
+			}
+		}
+		Ok(None)
+	};
+	if let Some(f) = check(&w, "after the writes")? {
+		return Ok(Some(f));
+	}
+	w.physical(Phys::Reopen)?;
+	if let Some(f) = check(&w, "after a reopen")? {
+		return Ok(Some(f));
+	}
+	w.physical(Phys::Compact)?;
+	if let Some(f) = check(&w, "after a compaction")? {
+		return Ok(Some(f));
+	}
+	w.physical(Phys::Reopen)?;
+	check(&w, "after compaction and reopen")
+}
+
 pub fn gen(n: usize, d: usize, kinds: &[Kind], phys: &[Phys]) -> Vec<Vec<Hop>> {
 	let mut out = vec![];
 	fn rec(n: usize, d: usize, kinds: &[Kind], phys: &[Phys], wi: usize, cur: &mut Vec<Hop>, out: &mut Vec<Vec<Hop>>) {
@@ -920,6 +1021,30 @@ pub fn check(tier: Tier) -> i32 {
 			first.entry(c).or_insert((format!("{} => {t}", hops_str(&lists[i])), json!({"engine": "c10-retention", "hops": hops_json(&lists[i])})));
 		}
 	}
+	// --- part 3b: large histories (the version index grows several levels) ---
+	{
+		let sizes: Vec<(usize, usize)> = if tier == Tier::Quick { vec![(40, 3), (300, 4), (1500, 3)] } else { vec![(40, 3), (300, 4), (1500, 3), (5000, 4), (20000, 2)] };
+		let cases: Vec<(bool, usize, usize)> = sizes.iter().flat_map(|(n, r)| [(true, *n, *r), (false, *n, *r)]).collect();
+		let res: Vec<((bool, usize, usize), Result<Option<(String, String)>, String>)> =
+			cases.par_iter().map(|c| (*c, crate::util::guarded(|| large_history_case(c.0, c.1, c.2)).unwrap_or_else(|p| Ok(Some((format!("large:panic:{}", crate::props::norm_msg(&p)), p)))))).collect();
+		for ((index, n, r), x) in res {
+			evaluations += 1;
+			transitions += (n * r) as u64;
+			match x {
+				Err(e) => {
+					eprintln!("machinery: large history {n}x{r}: {e}");
+					return 2;
+				}
+				Ok(Some((c, t))) => {
+					let c = format!("{}:{c}", if index { "index" } else { "lsm" });
+					*per_class.entry(c.clone()).or_default() += 1;
+					first.entry(c).or_insert((format!("[{} keys x {} versions, {} back-end] {t}", n, r, if index { "version-index" } else { "LSM" }), json!({"engine": "c10-large", "index": index, "keys": n, "rounds": r})));
+				}
+				Ok(None) => {}
+			}
+		}
+		completed.push(format!("large histories: (keys, versions per key) in {sizes:?} x 2 back-ends: complete history forwards and backwards, get_at for every 7th key at every timestamp; after the writes, after a reopen, after a compaction, after another reopen"));
+	}
 	// --- part 4: history after a restore ---
 	for index in [false, true] {
 		for flush_mid in [false, true] {
@@ -991,6 +1116,28 @@ pub fn check(tier: Tier) -> i32 {
 
 pub fn replay(r: &J) -> i32 {
 	surrealkv::verif::set_forced_height(1);
+	if r["engine"] == "c10-large" {
+		let (index, n, rounds) = (r["index"].as_bool().unwrap_or(true), r["keys"].as_u64().unwrap_or(40) as usize, r["rounds"].as_u64().unwrap_or(3) as usize);
+		println!("replaying C10 large history: {n} keys x {rounds} versions, index={index}");
+		return match crate::util::guarded(|| large_history_case(index, n, rounds)) {
+			Ok(Ok(None)) => {
+				println!("replay passed: no violation");
+				0
+			}
+			Ok(Ok(Some((c, t)))) => {
+				println!("VIOLATION property=C10 replay=<this file>\n  class={}:{c} {t}", if index { "index" } else { "lsm" });
+				1
+			}
+			Ok(Err(e)) => {
+				eprintln!("machinery: {e}");
+				2
+			}
+			Err(p) => {
+				println!("VIOLATION property=C10 replay=<this file>\n  class=large:panic {p}");
+				1
+			}
+		};
+	}
 	let hops = hops_from_json(&r["hops"]);
 	println!("replaying C10 [{}] {}", r["backend"], hops_str(&hops));
 	let run = |name: &str| {
